@@ -242,6 +242,8 @@ class H1Server(TimerMixin, Peer):
         self.closed = False
         self.busy_until = 0.0         # responses are serialised in order
         self.idle_timer_gen = 0
+        self.last_end_off = None      # absolute s2c offset where the last response ends
+        self.last_closing = False
 
     # -- lifecycle ----------------------------------------------------------------
     def on_open(self, now):
@@ -258,6 +260,7 @@ class H1Server(TimerMixin, Peer):
             if g == self.idle_timer_gen and not self.closed and self.cur is None:
                 self.w.log("srv_idle_close", self.wire.id)
                 self.w.probes["server_closed_idle"] += 1
+                self.w.stats["hostile:idle_close"] += 1
                 self._close(t)
 
         self.at(now + ka, fire)
@@ -282,11 +285,13 @@ class H1Server(TimerMixin, Peer):
         if self.closed:
             return
         if self.tunnel:
-            w.log("tunnel_c2s", self.wire.id, data)
-            if self.cfg.get("tunnel_echo"):
-                self.wire.push(now + 0.001, data)
+            self.tunnel_data(now, data)
             return
         self.idle_timer_gen += 1
+        if self.nreq > 0 and self.cur is None and not self.parser.buf and data:
+            # first byte of the next request on this connection
+            w.log("srv_next_req_start", self.wire.id, self.nreq, self.wire.nread,
+                  self.last_end_off, self.last_closing)
         for ev in self.parser.feed(data):
             k = ev[0]
             if k == "head":
@@ -325,7 +330,7 @@ class H1Server(TimerMixin, Peer):
                     rest = bytes(self.parser.buf)
                     self.parser.buf.clear()
                     if rest:
-                        w.log("tunnel_c2s", self.wire.id, rest)
+                        self.tunnel_data(now, rest)
                     break
                 if not self.closed:
                     self._arm_idle(max(now, self.busy_until))
@@ -334,6 +339,14 @@ class H1Server(TimerMixin, Peer):
                 self.wire.push(now, b"HTTP/1.1 400 Bad Request\r\nContent-Length: 0\r\n"
                                     b"Connection: close\r\n\r\n")
                 self._close(now)
+
+    def tunnel_data(self, now, data):
+        self.w.log("tunnel_c2s", self.wire.id, data)
+        if self.cfg.get("tunnel_echo"):
+            self.wire.push(now + 0.001, data)
+
+    def tunnel_start(self, now):
+        pass
 
     def _plan(self, token):
         p = self.world.plans.get(token)
@@ -351,6 +364,7 @@ class H1Server(TimerMixin, Peer):
         if trunc is not None:
             raw = raw[:trunc]
         start = max(now, self.busy_until) + plan.get("think", 0.0)
+        off0 = self.wire.npushed
         # cut into segments
         cuts = self._cuts(len(raw), plan)
         t = start
@@ -363,15 +377,20 @@ class H1Server(TimerMixin, Peer):
                 t += gap
         end = t
         self.busy_until = end
+        closing = bool(plan.get("conn_close") or plan.get("http10")
+                       or plan.get("framing") == "close" or plan.get("early") == "close"
+                       or trunc is not None)
+        self.last_end_off = self.wire.npushed
+        self.last_closing = closing
         w.log("srv_resp", self.wire.id, self.label, self.nreq, token, len(raw),
-              plan.get("framing", "cl"), plan["status"])
-        closing = (plan.get("conn_close") or plan.get("http10")
-                   or plan.get("framing") == "close" or plan.get("early") == "close")
+              plan.get("framing", "cl"), plan["status"], off0, self.wire.npushed, closing)
         if trunc is not None:
+            w.stats["hostile:trunc"] += 1
             self.at(end, lambda tt: self._close(tt, RESET if plan.get("trunc_kind") == "reset" else EOF))
         elif tun is not None or (c["method"] == b"CONNECT" and 200 <= plan["status"] < 300) \
                 or plan["status"] == 101:
             self.tunnel = True
+            self.tunnel_start(end)
             if plan.get("tunnel_close"):
                 self.at(end, lambda tt: self._close(tt))
         elif closing:
